@@ -191,29 +191,32 @@ SPull ==
   /\ UNCHANGED <<n, E, C, cnt, readyTx, qRem, qDone, sRem, open, ended, failed, errors, sigSent,
                  sDone, foldErr, returned, outcome, panicked, hist>>
 
-(* the user future of f returns inside a poll; the rest of the item future runs without suspending *)
-SFinish(f) ==
-  /\ f \in running /\ f \in DOMAIN open
-  /\ LET ok == open[f] IN
-     /\ running' = running \ {f}
-     /\ ended' = ended \cup {f}
-     /\ open' = [g \in (DOMAIN open) \ {f} |-> open[g]]
-     /\ intRun' = IF f = intRun THEN 0 ELSE intRun
-     /\ IF ok
-        THEN /\ AfterFn(f, doneTx)
-             /\ UNCHANGED <<failed, errors, sDone, foldErr>>
-        ELSE /\ failed' = failed \cup {f}
-             /\ IF Api = "try_fold"
-                THEN \* `?`: the fold ends with the error, its state (incl. the done sender) is dropped
-                     /\ sDone' = TRUE /\ foldErr' = f /\ doneTx' = FALSE
-                     /\ UNCHANGED <<errors, doneQ, sRem>>
-                ELSE \* result_tx.send(e).await blocks while the result channel is full
-                     /\ Len(errors) < ResCapacity
-                     /\ errors' = Append(errors, f)
-                     /\ AfterFn(f, doneTx /\ ~DropOnError)
-                     /\ UNCHANGED <<sDone, foldErr>>
+(* the user future of f returns (ok or failing) inside a poll; the rest of the item future runs without suspending *)
+SFinishCore(f, ok) ==
+  /\ f \in running
+  /\ running' = running \ {f}
+  /\ ended' = ended \cup {f}
+  /\ intRun' = IF f = intRun THEN 0 ELSE intRun
+  /\ IF ok
+     THEN /\ AfterFn(f, doneTx)
+          /\ UNCHANGED <<failed, errors, sDone, foldErr>>
+     ELSE /\ failed' = failed \cup {f}
+          /\ IF Api = "try_fold"
+             THEN \* `?`: the fold ends with the error, its state (incl. the done sender) is dropped
+                  /\ sDone' = TRUE /\ foldErr' = f /\ doneTx' = FALSE
+                  /\ UNCHANGED <<errors, doneQ, sRem>>
+             ELSE \* result_tx.send(e).await blocks while the result channel is full
+                  /\ Len(errors) < ResCapacity
+                  /\ errors' = Append(errors, f)
+                  /\ AfterFn(f, doneTx /\ ~DropOnError)
+                  /\ UNCHANGED <<sDone, foldErr>>
   /\ UNCHANGED <<n, E, C, cnt, readyQ, readyTx, qRem, qDone, processed, is, started, sigChan, sigSent, afterSig,
                  sEnded, returned, outcome, panicked, hist>>
+
+SFinish(f) ==
+  /\ f \in DOMAIN open
+  /\ SFinishCore(f, open[f])
+  /\ open' = [g \in (DOMAIN open) \ {f} |-> open[g]]
 
 (* ready stream exhausted and nothing in flight: fold / for_each_concurrent complete *)
 SEnd ==
